@@ -609,24 +609,30 @@ int fcntl(int fd, int cmd, ...) {
   long val = va_arg(args, long);
   va_end(args);
 
-  if (!thread_locked) {
-    if (cmd == F_SETFL && (val == O_NONBLOCK || val == O_NDELAY) && fd >= 0 &&
-        fd < max_fd && (fd_info[fd].flags_ & IO_FLAG_WAITABLE)) {
+  // only descriptors set up by the shims are kept non-blocking underneath;
+  // for those, F_SETFL/F_GETFL act on the mode the caller sees (IO_FLAG_BLOCKING)
+  const int managed = !thread_locked && fd >= 0 && fd < max_fd &&
+                      (fd_info[fd].flags_ & IO_FLAG_WAITABLE);
+  if (managed && cmd == F_SETFL) {
+    if (val & O_NONBLOCK) {
       atomic_fetch_and(&fd_info[fd].flags_, ~IO_FLAG_BLOCKING);
-      assert(!(fd_info[fd].flags_ & IO_FLAG_BLOCKING));
-      return 0;
+    } else {
+      atomic_fetch_or(&fd_info[fd].flags_, IO_FLAG_BLOCKING);
     }
     // make sure O_NONBLOCK stays set
-    if (cmd == F_SETFL) {
-      val |= O_NONBLOCK;
-    }
+    val |= O_NONBLOCK;
   }
 
   if (!fibershim_fcntl) {
     fibershim_fcntl = (fcntlFnType)dlsym(RTLD_NEXT, "fcntl");
   }
 
-  return fibershim_fcntl(fd, cmd, val);
+  int ret = fibershim_fcntl(fd, cmd, val);
+  if (managed && cmd == F_GETFL && ret >= 0 &&
+      (fd_info[fd].flags_ & IO_FLAG_BLOCKING)) {
+    ret &= ~O_NONBLOCK;
+  }
+  return ret;
 }
 
 int ioctl(IOCTLPARAMS) {
